@@ -40,8 +40,9 @@ def _z3_worker(job):
     """One query, each attempt in its own z3 process (the soft time-out is not honoured inside some quantifier
     instantiation loops, so the process is killed at the hard limit; a killed query is `unknown`).
     Quantifier instantiation is sensitive to the random seed (the same query: time-out with one seed, 0.3 s with
-    another), so a small fixed portfolio is tried: default seed briefly, then two other seeds with half the budget each.
-    Only a definite answer ends the portfolio."""
+    another) and to the arithmetic back end (a query the default simplex-based solver loops on for > 20 s takes 0.7 s with
+    `smt.arith.solver=2`), so a small fixed portfolio is tried: default configuration briefly, the other arithmetic solver
+    briefly, then two other seeds with half the budget each.  Only a definite answer ends the portfolio."""
     key, smt2, timeout_ms = job
     t0 = time.time()
     with tempfile.NamedTemporaryFile("w", suffix=".smt2", delete=False) as fh:
@@ -51,7 +52,7 @@ def _z3_worker(job):
     try:
         portfolio = [([], min(timeout_ms, 3000))]
         if timeout_ms > 3000:
-            portfolio += [(["smt.random_seed=3"], timeout_ms // 2), (["smt.random_seed=11"], timeout_ms // 2)]
+            portfolio += [(["smt.arith.solver=2"], 4000), (["smt.random_seed=3"], timeout_ms // 2), (["smt.random_seed=11"], timeout_ms // 2)]
         for opts, tmo in portfolio:
             res, extra = _z3_once(path, tmo, opts)
             if res in ("sat", "unsat"):
